@@ -21,7 +21,7 @@ RULE = (
     "expression tree. layout: two nested levels (each reverse or forward) through ravel / reshape / flatten with order 'A' / 'K' of a "
     "C-, Fortran- or transposed-storage array that depends on the variables of both levels, against the closed form."
     ' nested_nary: one operation on three operands of different levels; vector3: three levels around a matrix product, the innermost differentiation closing over both enclosing levels, the outer-level operand optionally passed through array-method identities and the product optionally checkpointed.'
-    ' fixed_point_nested: depth 2-3 reverse-mode nesting through autograd.misc.fixed_points.fixed_point, levels differentiating the parameter or a closed-over variable in a drawn order, against the closed-form solution. mixed_kind: two levels whose variables differ in kind (real outer / complex inner or the reverse) joined by a matrix or elementwise product; closed-form inner gradient, central differences of it for the outer derivative, and the kind of the result.'
+    ' broadcast_levels: two levels joined by a broadcasting binary operation (scalar / row / column outer variable against a full inner array, either operand), closed-form inner gradient, shape and central differences for the outer derivative. fixed_point_nested: depth 2-3 reverse-mode nesting through autograd.misc.fixed_points.fixed_point, levels differentiating the parameter or a closed-over variable in a drawn order, against the closed-form solution. mixed_kind: two levels whose variables differ in kind (real outer / complex inner or the reverse) joined by a matrix or elementwise product; closed-form inner gradient, central differences of it for the outer derivative, and the kind of the result.'
 )
 
 MODES = ["grad", "deriv", "jac", "vjp", "jvp", "egrad", "vag", "hvp_like"]
@@ -631,6 +631,87 @@ def fixed_point_nested_body(c):
     return ok(nontrivial=True, key=json.dumps([n, a0, b0, wrt, which]), labels=["fixed_point_nested", f"depth={depth}", "param=" + which], sample=sample)
 
 
+def broadcast_levels_body(c):
+    """Two levels joined by a BROADCASTING binary operation: the outer variable x is a scalar / row / column, the inner variable y a full (3, 4) array (or
+    the other way round), op in power / multiply / divide / arctan2 / logaddexp / hypot / subtract.  h(x) = sum(W * grad_y[sum(C * op(x, y))]); the inner
+    gradient is C * d op / d y in closed form (NumPy), the outer derivative its central differences; the result has the SHAPE of x."""
+    import autograd
+    import autograd.numpy as anp
+
+    from .. import values
+    from ..case import describe_exc, from_autograd
+
+    vseed = c.seed()
+    op = c.choice(["power", "multiply", "divide", "arctan2", "logaddexp", "hypot", "subtract", "power_op"])
+    small = c.choice([(), (3, 1), (1, 4), (4,), (1, 1), (3, 4)])
+    outer_is_first = c.bool()  # the outer variable is the first operand (for power: the base)
+    modes = c.choice(["rr", "rr", "fr", "rf", "ff"])
+    (xs, ys, Cc, Wc), _ = values.generic(vseed, [small, (3, 4), (3, 4), (3, 4)], 0.4, 1.6)
+    x0 = float(xs) if small == () and vseed % 2 else xs
+    sample = {"op": op, "outer_shape": list(small), "outer_is_first": outer_is_first, "modes": modes, "vseed": vseed}
+    c.features.update(op=op, outer_shape=list(small), outer_is_first=outer_is_first, modes=modes)
+    bucket = lambda k: f"C08|broadcast_levels|{op}|{k}"
+    fn = {"power": lambda ns, a, b: ns.power(a, b), "power_op": lambda ns, a, b: a ** b, "multiply": lambda ns, a, b: a * b, "divide": lambda ns, a, b: a / b,
+          "arctan2": lambda ns, a, b: ns.arctan2(a, b), "logaddexp": lambda ns, a, b: ns.logaddexp(a, b), "hypot": lambda ns, a, b: ns.hypot(a, b),
+          "subtract": lambda ns, a, b: (a - b) * (a - b)}[op]
+    # closed-form derivative of op(a, b) with respect to the operand the INNER level differentiates
+    d_first = {"power": lambda a, b: b * a ** (b - 1), "power_op": lambda a, b: b * a ** (b - 1), "multiply": lambda a, b: b + 0 * a, "divide": lambda a, b: 1 / b + 0 * a,
+               "arctan2": lambda a, b: b / (a * a + b * b), "logaddexp": lambda a, b: onp.exp(a) / (onp.exp(a) + onp.exp(b)), "hypot": lambda a, b: a / onp.hypot(a, b),
+               "subtract": lambda a, b: 2 * (a - b)}[op]
+    d_second = {"power": lambda a, b: a ** b * onp.log(a), "power_op": lambda a, b: a ** b * onp.log(a), "multiply": lambda a, b: a + 0 * b, "divide": lambda a, b: -a / (b * b),
+                "arctan2": lambda a, b: -a / (a * a + b * b), "logaddexp": lambda a, b: onp.exp(b) / (onp.exp(a) + onp.exp(b)), "hypot": lambda a, b: b / onp.hypot(a, b),
+                "subtract": lambda a, b: -2 * (a - b)}[op]
+
+    def g(x, y):
+        return anp.sum(Cc * (fn(anp, x, y) if outer_is_first else fn(anp, y, x)))
+
+    def h_ref(x):
+        x = onp.asarray(x, dtype=float)
+        d = d_second(x, ys) if outer_is_first else d_first(ys, x)
+        return float(onp.sum(Wc * Cc * d))
+
+    def h(x):
+        if modes[1] == "r":
+            gy = autograd.grad(g, 1)(x, ys)
+            return anp.sum(Wc * gy)
+        tot = 0.0
+        for idx in onp.ndindex(3, 4):
+            e = onp.zeros((3, 4))
+            e[idx] = 1.0
+            tot = tot + Wc[idx] * autograd.make_jvp(lambda y_: g(x, y_))(ys)(e)[1]
+        return tot
+
+    xa = onp.asarray(x0, dtype=float)
+    want = onp.zeros(xa.shape)
+    hh = 1e-5
+    for idx in onp.ndindex(*xa.shape):
+        e = onp.zeros(xa.shape)
+        e[idx] = hh
+        want[idx] = (h_ref(xa + e) - h_ref(xa - e)) / (2 * hh)
+    try:
+        if abs(float(h(x0)) - h_ref(xa)) > 1e-10 * max(1.0, abs(h_ref(xa))):
+            return fail("wrong_value", f"inner gradient: h = {float(h(x0))!r}, closed form {h_ref(xa)!r}", bucket("inner_value"), sample=sample)
+        if modes[0] == "r":
+            got = onp.asarray(autograd.grad(h)(x0))
+        else:
+            got = onp.zeros(xa.shape)
+            for idx in onp.ndindex(*xa.shape):
+                e = onp.zeros(xa.shape)
+                e[idx] = 1.0
+                got[idx] = float(autograd.make_jvp(h)(x0)(float(e) if isinstance(x0, float) else e)[1])
+    except Exception as e:
+        if not from_autograd(e):
+            raise
+        if isinstance(e, NotImplementedError) and "not defined" in str(e):
+            return raised(e, "broadcast_levels", sample=sample)  # no rule for this operation in the requested mode: loud
+        return fail("unexpected_exception", describe_exc(e), bucket("exception"), sample=sample)
+    if got.shape != xa.shape:
+        return fail("wrong_shape", f"the derivative with respect to the outer variable of shape {xa.shape} has shape {got.shape}", bucket("shape"), sample=sample)
+    if not onp.allclose(got, want, rtol=1e-6, atol=1e-7):
+        return fail("wrong_value", f"outer derivative {got.tolist()} expected {want.tolist()}", bucket("value"), sample=sample)
+    return ok(nontrivial=tuple(small) != (3, 4), key=json.dumps([op, list(small), outer_is_first, modes]), labels=["broadcast_levels", "op=" + op, "modes=" + modes], sample=sample)
+
+
 def mixed_kind_body(c):
     """Two levels whose variables are of different kinds: the OUTER variable A is real, the INNER one B complex (or the other way round), joined by
     a product (dot / matmul / @ / einsum / tensordot / elementwise).  With P = prod(A, B): g(A, B) = Re sum(C * P) (form lin) or Re sum(C * P * P)
@@ -754,6 +835,7 @@ PROP = Prop("C08", [
     Test("vector3", vector3_body, quick=800, thorough=6000, shard_size=100),
     Test("layout", layout_body, quick=600, thorough=4000, shard_size=100),
     Test("mixed_kind", mixed_kind_body, quick=600, thorough=4000, shard_size=100),
+    Test("broadcast_levels", broadcast_levels_body, quick=800, thorough=5000, shard_size=100),
     Test("fixed_point_nested", fixed_point_nested_body, quick=240, thorough=2000, shard_size=30),
 ], RULE, assumptions=[
     "reference symbolic differentiator (vh/refs/symbolic.py) is correct; it shares no code with autograd",
